@@ -1,7 +1,6 @@
 (* NoPanicFinal.v — C06: the VM-level theorems without the numeric premise (NoPanicNum.v), the
-   repair of finding eval-object-in-constant (its former witnesses are errors now; the constant of
-   a quote form never reaches site 12), the witness of finding eval-object-as-define-name,
-   non-vacuity examples. *)
+   repair of the findings eval-object-in-constant and eval-object-as-define-name (site 12 is in the
+   excluded set now; their former witnesses are errors), non-vacuity examples. *)
 From Coq Require Import String Lia List.
 From MW Require Import Model.Base Model.F64 Model.Num Model.Datum Model.Lex Model.Parse Model.TransformDef Model.Transform
   Model.VmTypes Model.Heap Model.Gc Model.VmBase Model.Compile Model.Vm Model.Builtins
@@ -35,12 +34,12 @@ Proof. exact (boot_invariant num_panics_ok_holds). Qed.
 
 Theorem eval_no_vm_panic_u : forall prelude s0 s fuel e k,
   boot_with prelude = Some s0 -> evals s0 s -> eval other_builtin fuel e s = RPanic k ->
-  k <> 11 /\ k <> 13 /\ k <> 41 /\ k <> 42 /\ k <> 43 /\ k <> 45 /\ k <> 46 /\ k <> 47 /\ k <> 48 /\ k <> 49 /\ k <> 50 /\ k <> 51.
+  k <> 11 /\ k <> 12 /\ k <> 13 /\ k <> 41 /\ k <> 42 /\ k <> 43 /\ k <> 45 /\ k <> 46 /\ k <> 47 /\ k <> 48 /\ k <> 49 /\ k <> 50 /\ k <> 51.
 Proof. exact (eval_no_vm_panic_plain num_panics_ok_holds). Qed.
 
 Theorem eval_no_vm_panic_booted : forall s0 s fuel e k,
   booted = Some s0 -> evals s0 s -> eval other_builtin fuel e s = RPanic k ->
-  k <> 11 /\ k <> 13 /\ k <> 41 /\ k <> 42 /\ k <> 43 /\ k <> 45 /\ k <> 46 /\ k <> 47 /\ k <> 48 /\ k <> 49 /\ k <> 50 /\ k <> 51.
+  k <> 11 /\ k <> 12 /\ k <> 13 /\ k <> 41 /\ k <> 42 /\ k <> 43 /\ k <> 45 /\ k <> 46 /\ k <> 47 /\ k <> 48 /\ k <> 49 /\ k <> 50 /\ k <> 51.
 Proof. unfold booted. intros s0 s fuel e k. apply eval_no_vm_panic_u. Qed.
 
 (* ------------------------------------------------------------------ site 12 *)
@@ -136,16 +135,20 @@ Theorem repaired_eval_object_in_constant :
   match parse_text obj_witness_text with Ok (d, None) => datum_has_object d = false | _ => False end.
 Proof. split; [|split]; vm_compute; reflexivity. Qed.
 
-(* -- finding eval-object-as-define-name (OPEN): compile_define (compile.rs:250-304) takes the car of the
-   head of (define (name . formals) body) as the symbol WITHOUT testing that it is a symbol and hands it
-   to Heap::put_cell: a procedure / continuation / macro object there panics at site 12.  The witness
-   text parses to ONE datum without any object; the object is made at run time by `car`'s binding *)
+(* -- finding eval-object-as-define-name, REPAIRED (compile.rs compile_define tests is_symbol): compile_define
+   took the car of the head of (define (name . formals) body) as the symbol WITHOUT testing that it is a
+   symbol and handed it to Heap::put_cell: a procedure / continuation / macro object there panicked at
+   site 12.  The witness text parses to ONE datum without any object; the object is made at run time *)
 Definition defname_witness_text : text := S_ "(eval (cons 'define (cons (cons car '()) '(1))))"%string.
+Definition defname_witness_texts : list text :=
+  [S_ "(eval (list 'define (list car 'x) 1))"; S_ "(eval (list 'define (list (call/cc (lambda (k) k)) 'x) 1))";
+   S_ "(eval (list 'define (list and 'x) 1))"; S_ "(define (1 x) 1)"]%string.
 
-Theorem refuted_eval_object_as_define_name :
-  run_text defname_witness_text 200 = Some (RPanic 12) /\
+Theorem repaired_eval_object_as_define_name :
+  is_error (run_text defname_witness_text 200) = true /\
+  forallb (fun t => is_error (run_text_booted t 2000)) defname_witness_texts = true /\
   match parse_text defname_witness_text with Ok (d, None) => datum_has_object d = false | _ => False end.
-Proof. split; vm_compute; reflexivity. Qed.
+Proof. split; [|split]; vm_compute; reflexivity. Qed.
 
 (* non-vacuity: a program using a variadic closure, apply, call/cc and a builtin passed as a value runs
    to a value from the same machine; the theorems above apply to it *)
